@@ -265,6 +265,19 @@ getbuffer (PyObject *obj, Py_buffer *view, int flags)
         return -1;
     }
 
+    //  A strided array (e.g. the .x view of a V3fArray) can only be
+    // described with strides: refuse consumers that ask for a contiguous
+    // buffer (no PyBUF_STRIDES, or one of the contiguity flags) instead of
+    // handing them the interleaved memory as if it were the elements.
+    if (array.stride() != 1 &&
+        ((flags & PyBUF_STRIDES) != PyBUF_STRIDES ||
+         (flags & PyBUF_C_CONTIGUOUS) == PyBUF_C_CONTIGUOUS ||
+         (flags & PyBUF_ANY_CONTIGUOUS) == PyBUF_ANY_CONTIGUOUS))
+    {
+        PyErr_SetString (PyExc_BufferError, "FixedArray view is strided; a contiguous buffer cannot be provided");
+        return -1;
+    }
+
     BufferAPI<ArrayT> *api   = nullptr;
     bool writableBuffer = ((flags & PyBUF_WRITABLE) == PyBUF_WRITABLE);
     if (writableBuffer && !array.writable())
